@@ -8,7 +8,7 @@ macro_rules! conv8 {
     ($name:ident, $S:ident, $ST:ty, $FS:ident, $fs:expr, $D:ident, $DT:ty, $dsigned:expr) => {
         #[cfg(kani)]
         #[kani::proof]
-        fn $name() {
+        pub fn $name() {
             let a: $ST = kani::any();
             let fd = any_frac8();
             let r = floor_div((a as i32) << fd, 1i32 << $fs);
@@ -47,7 +47,7 @@ macro_rules! conv_int {
     ($name:ident, $Fx:ident, $FT:ty, $fsigned:expr, $I:ty, $imin:expr, $imax:expr) => {
         #[cfg(kani)]
         #[kani::proof]
-        fn $name() {
+        pub fn $name() {
             let a: $FT = kani::any();
             let n: $I = kani::any();
             let f = any_frac8();
@@ -95,7 +95,7 @@ macro_rules! convx {
     ($name:ident, $S:ident, $ST:ty, $FS:ident, $fs:expr, $D:ident, $DT:ty, $FD:ident, $fd:expr) => {
         #[cfg(kani)]
         #[kani::proof]
-        fn $name() {
+        pub fn $name() {
             let a: $ST = kani::any();
             let src = $S::<$FS>::from_bits(a);
             let r: i128 = if $fd >= $fs { (a as i128) << ($fd - $fs) } else { (a as i128) >> ($fs - $fd) };
@@ -118,7 +118,7 @@ convx!(x_i8f7_u8f7, FixedI8, i8, U7, 7, FixedU8, u8, U7, 7);
 // infallible From / LossyFrom: value preserving resp. only fraction bits lost, never an overflow
 #[cfg(kani)]
 #[kani::proof]
-fn from_impls() {
+pub fn from_impls() {
     let a: i8 = kani::any();
     let u: u8 = kani::any();
     // I4F4 -> I12F4 ... widening with more fraction bits
@@ -142,7 +142,7 @@ fn from_impls() {
 }
 #[cfg(kani)]
 #[kani::proof]
-fn lossy_from_impls() {
+pub fn lossy_from_impls() {
     let a: i16 = kani::any();
     let u: u16 = kani::any();
     // same or more integer bits, any fraction bits: only fraction bits are dropped (floor)
